@@ -248,7 +248,8 @@ theorem arity_rules (tol v w u : ℚ) (l : List ℚ) :
     object's tolerance)" — partial correctness: whenever `root(xl, xh)` returns `v` (limits in either order, clamped
     to the table; the requested interval meets the table), `v` lies between the limits and inside the table, and
     `|I(v)| ≤ tol` for the value `I(v)` that `__call__` returns at `v`.  (Whether it returns is the convergence of
-    the Newton / false-position iteration, which no theorem here covers.) -/
+    the Newton / false-position / bisection iteration; `root_terminates` and `root_fallback_halves_bracket` below
+    are what is proved about it.) -/
 theorem root_post (xs ys : List ℚ) (o : Interp) (xl xh v : ℚ) (m : Int)
     (hset : GenQ.Interpolation.set TOL [.list xs, .list ys] = .ok o)
     (hnd : ¬ (xl = 0 ∧ xh = 0))
@@ -278,6 +279,22 @@ theorem root_post_default (xs ys : List ℚ) (o : Interp) (v : ℚ) (m : Int)
   obtain ⟨r1, r2, y, hy, hyt⟩ := root_post_core (by rw [htol]; exact TOL_pos) hlim (by rw [hA, hB]; exact hfl) hr
   rw [htol] at hyt
   exact ⟨⟨hA ▸ r1, hB ▸ r2⟩, y, hy, hyt⟩
+
+/-- Termination of the iteration: the loop of `root` (any object, any start state with `num_iter = 0`) ends within
+    `max_iter + 1` passes — by its exit test `abs(y) <= tol` or by ValueError('Too many iterations'); the model's
+    fuel is never exhausted. -/
+theorem root_terminates (o : Interp) (m : Int) (s : RootState) (h0 : s.num_iter = 0) :
+    loopFuel (root_step o m) (m.toNat + 1) s ≠ none := by
+  apply root_loop_terminates
+  rw [h0]; omega
+
+/-- The fallback of `root` bisects every other time: on a pass with an even iteration count on which the slope is
+    below 1e-3 (Newton switched off) the bracket `[xl, xh]` is halved — it cannot keep one end for ever. -/
+theorem root_fallback_halves_bracket (o : Interp) (m : Int) (s s' : RootState) (yp : ℚ)
+    (hd : GenQ.Interpolation.derivative o s.x = .ok yp) (hsmall : |yp| < 1e-3)
+    (he : imod (s.num_iter + 1) 2 = 0) (h : root_step o m s = .inl s') :
+    s'.xh - s'.xl = (s.xh - s.xl) / 2 :=
+  root_step_halves hd hsmall he h
 
 /-! ### Extrema -/
 
